@@ -115,7 +115,7 @@ def build_net(g, kind, w, ws, selfw=False):
 def starts(n, g, seed):
     rs = np.random.RandomState(seed)
     out = [None, (np.arange(n) % 3 + 1), np.ones(n, dtype=int), np.arange(n) + 1,
-           rs.randint(1, 4, size=n), (rs.randint(0, 3, size=n) * 7 + 20)]
+           rs.randint(1, 4, size=n), (rs.randint(0, 3, size=n) * 7 + 20), rs.permutation(n) + 1]
     return out
 
 
@@ -152,7 +152,7 @@ def run(case, bct, REC):
                 modq.execute(REC, bct, 'community_louvain', W, {'gamma': g, 'B': 'potts'}, rngs(1)[0])
             for si, st in enumerate(sts):
                 modq.execute(REC, bct, 'modularity_finetune_und', W, {'gamma': g}, rngs(1)[0], start=st)
-                if si in (1, 4):
+                if si in (1, 2, 4, 6):
                     modq.execute(REC, bct, 'community_louvain', W, {'gamma': g, 'B': 'modularity'}, rngs(1)[0], start=st)
             modq.execute(REC, bct, 'modularity_und', W, {'gamma': g}, None)
             modq.execute(REC, bct, 'modularity_und', W, {'gamma': g}, None, start=np.arange(n) % 3 + 1)
